@@ -490,7 +490,9 @@ fn run_plan(plan: &Plan, fault: &Option<RecFault>, tamper: Option<Tamper>) -> E2
     match plan.n {
         1 => go!(1),
         3 => go!(3),
+        5 => go!(5),
         8 => go!(8),
+        16 => go!(16),
         20 => go!(20),
         32 => go!(32),
         64 => go!(64),
@@ -499,7 +501,7 @@ fn run_plan(plan: &Plan, fault: &Option<RecFault>, tamper: Option<Tamper>) -> E2
 }
 
 fn gen_plan(env: &Env, src: &mut Src<'_>) -> (Plan, &'static str) {
-    let n = src.pick(&[1usize, 3, 8, 20, 32, 64, 256]);
+    let n = src.pick(&[1usize, 3, 5, 8, 16, 20, 32, 64, 256]);
     let steps = src.urange(1, 3);
     // number of records chosen so that the number of bit multiplications per proof batch hits the
     // block (256) and recursion (TARGET_PROOF_SIZE = 8192 in test builds; u/v length 32*8^j)
@@ -613,7 +615,7 @@ pub fn subs(_env: &Env) -> Vec<Sub> {
         Sub::random("three_party_consistency", 300, 3000, 100_000, three_party_consistency,
             "dense generated three-party views of 256 multiplications (all-zero / all-one / random shares and masks): conversions equal the per-bit reference; prover indices equal the left verifier's u and the right verifier's v and every position sums to -1/2; after flipping one generated (helper, entry, position) bit some table relation fails at exactly that position; distinct by the flipped (helper, entry, position)"),
         Sub::random("e2e", 40, 3000, 60_000, e2e,
-            "TestWorld malicious contexts, Boolean vectors of width {1,3,8,20,32,64,256}, 1-3 steps per batch, record counts chosen so the bit-multiplication count hits 1, 255/256/257, 2^k, 2^k+-1, 32*8^j(+1), >8192 (recursion boundary, TARGET_PROOF_SIZE=8192 in test builds) or random; single-shot validate() or validate_record via validated_seq_join with 2^0..2^7 records per batch. Honest run must be accepted by all helpers with the right product; then one fault - a flipped bit of one transmitted z message (interceptor) or of one recorded intermediate (x/y/prss/z entry pushed with a flipped bit) - must make at least one helper return DZKPValidationFailed/ParallelDZKPValidationFailed; non-trivial = fault applied inside the populated part")
+            "TestWorld malicious contexts, Boolean vectors of width {1,3,5,8,16,20,32,64,256}, 1-3 steps per batch, record counts chosen so the bit-multiplication count hits 1, 255/256/257, 2^k, 2^k+-1, 32*8^j(+1), >8192 (recursion boundary, TARGET_PROOF_SIZE=8192 in test builds) or random; single-shot validate() or validate_record via validated_seq_join with 2^0..2^7 records per batch. Honest run must be accepted by all helpers with the right product; then one fault - a flipped bit of one transmitted z message (interceptor) or of one recorded intermediate (x/y/prss/z entry pushed with a flipped bit) - must make at least one helper return DZKPValidationFailed/ParallelDZKPValidationFailed; non-trivial = fault applied inside the populated part")
         .shrink_iters(12),
     ]
 }
